@@ -777,7 +777,17 @@ def sym_round(x, n=0):
         up = z3.ToReal(z3.ToInt(y + z3.RealVal("1/2")))
         tie_val = z3.If(k % 2 == 0, fl, fl + 1)
         r = z3.If(y - fl == z3.RealVal("1/2"), tie_val, up)
-        return SymNum(r / sc, py=x.py, grid=sc)
+        res = r / sc
+        # redundant lemmas (rounding is monotone): z3 does not find the integrality argument behind
+        # "x <= y  =>  round(x) <= round(y)" on unbounded integers by itself
+        c = cur()
+        apps = c.__dict__.setdefault('_round_apps', {}).setdefault(sc, [])
+        arg = x.e
+        if not any(a0.eq(arg) for a0, _ in apps):
+            for a0, r0 in apps[-8:]:
+                c.add(z3.Implies(arg <= a0, res <= r0), z3.Implies(arg >= a0, res >= r0))
+            apps.append((arg, res))
+        return SymNum(res, py=x.py, grid=sc)
     return round(x, n) if n else round(x)
 
 
